@@ -88,7 +88,10 @@ LiveDeletedOK ==
                /\ <<"current", 0>> \in disk
                /\ (immOn /\ ~immDone) => <<"wal", immWal>> \in disk
 
+FaultMode == runInfo.mode = "fault"
+
 Failing ==
+  IF FaultMode THEN {} ELSE
   (IF isOpen /\ ~ReadLatestOK THEN {"ReadLatest"} ELSE {})
   \cup (IF isOpen /\ ~ReadSnapsOK THEN {"ReadSnaps"} ELSE {})
   \cup (IF isOpen /\ ~ReadPinsOK THEN {"ReadPins"} ELSE {})
@@ -155,12 +158,15 @@ TraceInit ==
   /\ files = <<>> /\ cur = EmptyVersion(NL) /\ pins = {} /\ snaps = <<>> /\ pending = {}
   /\ comp = NoComp /\ disk = {} /\ nextFile = 0 /\ curWal = 0 /\ logWal = 0 /\ nextPin = 1 /\ gcDue = FALSE
   /\ l = 1 /\ viol = <<>> /\ bad = {} /\ dirty = FALSE /\ lastEv = "none"
-  /\ runInfo = [run |-> 0, seed |-> 0] /\ keep = <<>> /\ lastIter = 0 /\ manNo = 0
+  /\ runInfo = [run |-> 0, seed |-> 0, mode |-> "none", disarmed |-> FALSE, wlog |-> <<>>,
+                tag |-> ""]
+  /\ keep = <<>> /\ lastIter = 0 /\ manNo = 0
   /\ isOpen = FALSE /\ flushed = FALSE /\ gpins = {} /\ deferred = {}
   /\ ackStore = <<>> /\ inflight = <<>>
 
 Report(final) ==
-  PrintT(<<"@@RUN", ToJson([run |-> runInfo.run, seed |-> runInfo.seed, lines |-> l,
+  PrintT(<<"@@RUN", ToJson([run |-> runInfo.run, seed |-> runInfo.seed, tag |-> runInfo.tag,
+                            lines |-> l,
                             viol |-> final])>>)
 
 FinalViol == IF dirty THEN viol \o NewViol(Failing \ bad) ELSE viol
@@ -170,7 +176,9 @@ TReset ==
   /\ IF runInfo.run = 0 THEN TRUE ELSE Report(FinalViol)
   /\ FreshCore(Ev.nk)
   /\ l' = l + 1 /\ viol' = <<>> /\ bad' = {} /\ dirty' = FALSE /\ lastEv' = "none"
-  /\ runInfo' = [run |-> Ev.run, seed |-> Ev.seed] /\ keep' = <<>> /\ lastIter' = 0
+  /\ runInfo' = [run |-> Ev.run, seed |-> Ev.seed, mode |-> Ev.driver, disarmed |-> FALSE,
+                  wlog |-> <<>>, tag |-> Ev.tag]
+  /\ keep' = <<>> /\ lastIter' = 0
   /\ manNo' = 0 /\ isOpen' = FALSE /\ flushed' = FALSE /\ gpins' = {} /\ deferred' = {}
   /\ ackStore' = [k \in 1..Ev.nk |-> 0] /\ inflight' = <<>>
 
@@ -213,10 +221,58 @@ TRet ==
   /\ IsEv("Ret")
   /\ ackStore' = IF Ev.ok THEN ApplyOps(ackStore, inflight, 1) ELSE ackStore
   /\ inflight' = <<>>
-  /\ JudgeAnd(IF Ev.ok THEN <<>>
+  /\ runInfo' = IF FaultMode
+                THEN [runInfo EXCEPT !.wlog = Append(@, [ops |-> inflight, ok |-> Ev.ok])]
+                ELSE runInfo
+  /\ JudgeAnd(IF Ev.ok \/ FaultMode THEN <<>>
               ELSE ObsViol(<<"C01", "C09">>, "WriteFailed", [keys |-> <<>>, at |-> 0]))
   /\ Step(FALSE, "")
-  /\ UNCHANGED <<coreVars, runInfo, keep, lastIter, manNo, isOpen, flushed, gpins, deferred>>
+  /\ UNCHANGED <<coreVars, keep, lastIter, manNo, isOpen, flushed, gpins, deferred>>
+
+---------------------------------------------------------------------------
+(* C08: one injected filesystem failure.  wlog holds every write call with its result; a write
+   that returned an error may have taken effect completely or not at all *)
+
+TDisarm ==
+  /\ IsEv("Disarm")
+  /\ runInfo' = [runInfo EXCEPT !.disarmed = TRUE]
+  /\ Judge /\ Step(FALSE, "")
+  /\ UNCHANGED <<coreVars, keep, lastIter, manNo, isOpen, flushed, gpins, deferred, ackStore,
+                 inflight>>
+
+ErrIdx == {i \in 1..Len(runInfo.wlog) : ~runInfo.wlog[i].ok}
+
+RECURSIVE FoldW(_, _, _)
+FoldW(st, i, S) ==
+  IF i > Len(runInfo.wlog) THEN st
+  ELSE IF runInfo.wlog[i].ok \/ i \in S
+       THEN FoldW(ApplyOps(st, runInfo.wlog[i].ops, 1), i + 1, S)
+       ELSE FoldW(st, i + 1, S)
+
+\* a write call that has not returned yet cannot happen at an observation (single client)
+PossibleStores == {FoldW([k \in Keys |-> 0], 1, S) : S \in SUBSET ErrIdx}
+
+VisOf(st) == SelectSeq([k \in 1..nk |-> <<k, st[k]>>], LAMBDA x : x[2] # 0)
+
+FaultObsViol ==
+  LET PS == PossibleStores
+      got == [k \in Keys |-> Ev.gets[k]]
+      det == [keys |-> <<>>, at |-> 0]
+      wrongKeys == {k \in Keys : got[k] # -1 /\ got[k] \notin {st[k] : st \in PS}}
+      v1 == IF wrongKeys # {}
+            THEN ObsViol(<<"C08">>, "ReadAfterFaultWrong", [keys |-> SetToSeq(wrongKeys), at |-> 0])
+            ELSE <<>>
+      ascending == \A i \in 1..(Len(Ev.fwd) - 1) : Ev.fwd[i][1] < Ev.fwd[i + 1][1]
+      partial == /\ ~runInfo.disarmed /\ ascending
+                 /\ \E st \in PS : SeqSet(Ev.fwd) \subseteq SeqSet(VisOf(st))
+      v2 == IF Ev.fwdok /\ Ev.fwd \notin {VisOf(st) : st \in PS}
+            THEN ObsViol(<<"C08">>, IF partial THEN "ScanSilentlyIncomplete"
+                                    ELSE "ScanAfterFaultWrong", det) ELSE <<>>
+      v3 == IF Ev.final /\ (Ev.errs > 0 \/ ~Ev.fwdok \/ got \notin PS)
+            THEN ObsViol(<<"C08">>, "FinalStoreWrong",
+                         [keys |-> SetToSeq({k \in Keys : got[k] # ackStore[k]}), at |-> 0])
+            ELSE <<>> IN
+  (v1 \o v2) \o v3
 
 ---------------------------------------------------------------------------
 (* crash probes (check-only): the image after the first j journal operations, optionally with
@@ -314,7 +370,7 @@ TOpened ==
   \* a clean reopen must not lose or invent sequence numbers
   /\ hist' = IF Ev.seq > Len(hist)
              THEN hist \o [i \in 1..(Ev.seq - Len(hist)) |-> <<0, 0, 0>>] ELSE hist
-  /\ JudgeAnd(IF Ev.seq < Len(hist)
+  /\ JudgeAnd(IF Ev.seq < Len(hist) /\ ~FaultMode
               THEN ObsViol(<<"C01">>, "SeqRegressed", [keys |-> <<Ev.seq, Len(hist)>>, at |-> 0])
               ELSE <<>>)
   /\ Step(TRUE, "Opened")
@@ -326,6 +382,10 @@ TOpened ==
 TOpenRet ==
   /\ IsEv("OpenRet")
   /\ JudgeAnd(IF Ev.ok THEN <<>>
+              ELSE IF FaultMode
+              THEN (IF runInfo.disarmed
+                    THEN ObsViol(<<"C08">>, "ReopenFailedAfterFault", [keys |-> <<>>, at |-> 0])
+                    ELSE <<>>)
               ELSE ObsViol(<<"C01", "C02">>, "OpenFailed", [keys |-> <<>>, at |-> 0]))
   /\ Step(FALSE, "")
   /\ UNCHANGED <<coreVars, runInfo, keep, lastIter, manNo, isOpen, flushed, gpins, deferred, ackStore, inflight>>
@@ -347,20 +407,25 @@ TCommit ==
   /\ IsEv("Commit")
   /\ LET n == Len(Ev.ops)
          ents == {OpEntry(Ev.ops[i], Ev.first + i - 1) : i \in 1..n}
-         pad == IF Ev.first > Len(hist) + 1
-                THEN [i \in 1..(Ev.first - 1 - Len(hist)) |-> <<0, 0, 0>>] ELSE <<>> IN
-     /\ Ev.first >= Len(hist) + 1
+         \* normally first = Len(hist) + 1; after a recovery that lost unacknowledged or failed
+         \* writes sequence numbers are handed out again
+         base == IF Ev.first <= Len(hist) THEN SubSeq(hist, 1, Ev.first - 1)
+                 ELSE hist \o [i \in 1..(Ev.first - 1 - Len(hist)) |-> <<0, 0, 0>>] IN
      /\ IF Ev.ok
-        THEN /\ hist' = (hist \o pad) \o
+        THEN /\ hist' = base \o
                         [i \in 1..n |-> <<Ev.ops[i].key, Ev.ops[i].op,
                                           IF Ev.ops[i].op = 1 THEN Ev.ops[i].val ELSE 0>>]
              /\ mem' = mem \cup ents
-        ELSE /\ hist' = (hist \o pad) \o [i \in 1..n |-> <<0, 0, 0>>]
+        ELSE /\ hist' = base \o [i \in 1..n |-> <<0, 0, 0>>]
              /\ mem' = mem
      /\ seq' = Ev.first + n - 1
-  /\ Judge /\ Step(TRUE, "Commit")
+     /\ JudgeAnd(IF Ev.first <= Len(hist) /\ ~FaultMode
+                 THEN ObsViol(<<"C01">>, "SeqReused", [keys |-> <<Ev.first, Len(hist)>>, at |-> 0])
+                 ELSE <<>>)
+  /\ Step(TRUE, "Commit")
   /\ UNCHANGED <<nk, imm, immOn, immDone, immWal, files, cur, pins, snaps, pending, comp, disk,
-                 nextFile, curWal, logWal, nextPin, gcDue, runInfo, keep, lastIter, manNo, isOpen, flushed, gpins, deferred, ackStore, inflight>>
+                 nextFile, curWal, logWal, nextPin, gcDue, runInfo, keep, lastIter, manNo, isOpen,
+                 flushed, gpins, deferred, ackStore, inflight>>
 
 TRotate ==
   /\ IsEv("Rotate")
@@ -515,6 +580,7 @@ ScanOK(ok, got, want) == ok /\ got = want
 
 TObs ==
   /\ IsEv("Obs")
+  /\ ~FaultMode
   /\ LET s == IF Ev.at = -1 THEN seq ELSE Ev.at
          vis == Visible(hist, s, nk)
          wrong == {k \in Keys : Ev.gets[k] # AbstractAt(hist, k, s)}
@@ -532,6 +598,14 @@ TObs ==
      JudgeAnd(((v1 \o v2) \o v3) \o v4)
   /\ Step(FALSE, "")
   /\ UNCHANGED <<coreVars, runInfo, keep, lastIter, manNo, isOpen, flushed, gpins, deferred, ackStore, inflight>>
+
+TObsFault ==
+  /\ IsEv("Obs")
+  /\ FaultMode
+  /\ JudgeAnd(FaultObsViol)
+  /\ Step(FALSE, "")
+  /\ UNCHANGED <<coreVars, runInfo, keep, lastIter, manNo, isOpen, flushed, gpins, deferred,
+                 ackStore, inflight>>
 
 PinById(id) == CHOOSE p \in pins : p.id = id
 
@@ -641,7 +715,7 @@ TraceNext ==
   \/ TCommit \/ TRotate \/ TEdit \/ TFlushBuilt \/ TImmDropped \/ TPicked \/ TOutputOpened \/ TCompactionDone
   \/ TSnapshot \/ TRelease \/ TIterNew \/ TIterDrop \/ TIterDropped \/ TIterKeep
   \/ TGetCapture \/ TGetDone \/ TObsoleteCollected
-  \/ TObs \/ TIterObs \/ TIterWalk \/ TDump \/ THang \/ TPanic
+  \/ TObs \/ TObsFault \/ TDisarm \/ TIterObs \/ TIterWalk \/ TDump \/ THang \/ TPanic
 
 TraceSpec == TraceInit /\ [][TraceNext]_allVars
 
